@@ -89,10 +89,11 @@ Lemma regions_frame h h' : nnodes h' = nnodes h -> ndocs h' = ndocs h ->
   same n_region h h' -> same n_kind h h' -> same n_doc h h' -> same n_id h h' -> dsame d_regions h h' ->
   WF_regions h -> WF_regions h'.
 Proof.
-  intros HN HD S1 S2 S3 S4 S5 [W1 W2]. split.
+  intros HN HD S1 S2 S3 S4 S5 (W1 & W2 & W3). split; [|split].
   - intros i r Hi. rewrite HN in Hi. rewrite S1, S2, S3. intro E. destruct (W1 i r Hi E) as [C (d & id & E1 & E2 & E3)].
     split; [exact C|]. exists d, id. rewrite S4, S5. auto.
   - intros d id r Hd. rewrite HD in Hd. rewrite S5, S2, S4. apply W2. exact Hd.
+  - intros d Hd. rewrite HD in Hd. rewrite S5. apply W3. exact Hd.
 Qed.
 Lemma values_frame h h' : nnodes h' = nnodes h -> ndocs h' = ndocs h ->
   same n_styles h h' -> same n_anims h h' -> dsame d_initials h h' -> WF_values h -> WF_values h'.
